@@ -291,6 +291,11 @@ func bestPracticesCheck(token jwt.Token) error {
 		return fmt.Errorf("token jti is not a valid uuid: %w", err)
 	}
 
+	// Ensure the token has not expired: jwt.Validate does not check an expiration at the Unix epoch ("exp": 0)
+	if !token.Expiration().After(time.Now()) {
+		return errors.New("token has expired")
+	}
+
 	// Ensure the expiration is no more than 24.5 hours after NotBefore
 	maxExpirationAfterNotBefore := token.NotBefore().Add(time.Minute * time.Duration(1470))
 	if token.Expiration().After(maxExpirationAfterNotBefore) {
